@@ -20,15 +20,16 @@ func init() { props["C17"] = runC17 }
 type presetRow struct {
 	dialect                          asm.Dialect
 	size, length, processes, cycles int
+	distance                         int // the README table has no such column: the usual minimum distances of these hills
 }
 
 var readmePresets = map[string]presetRow{
-	"nop94":   {asm.D94, 8000, 100, 8000, 80000},
-	"88":      {asm.D88, 8000, 100, 8000, 80000},
-	"icws":    {asm.D88, 8192, 300, 8000, 100000},
-	"noptiny": {asm.D94, 800, 20, 800, 8000},
-	"nop256":  {asm.D94, 256, 10, 60, 2560},
-	"nopnano": {asm.D94, 80, 5, 80, 800},
+	"nop94":   {asm.D94, 8000, 100, 8000, 80000, 100},
+	"88":      {asm.D88, 8000, 100, 8000, 80000, 100},
+	"icws":    {asm.D88, 8192, 300, 8000, 100000, 100},
+	"noptiny": {asm.D94, 800, 20, 800, 8000, 20},
+	"nop256":  {asm.D94, 256, 10, 60, 2560, 10},
+	"nopnano": {asm.D94, 80, 5, 80, 800, 5},
 }
 
 // hand-made warriors with a known fate
@@ -45,6 +46,8 @@ func fateWarriors(d asm.Dialect) []string {
 		"mov bomb, <ptr\njmp -1\nbomb dat #0, #0\nptr dat #0, #-5\n", // backwards carpet
 		"spl 2\njmp -1\nmov 0, 1\n",
 		"a djn a, #8000\nb djn b, #8000\nc djn c, #8000\ndat #0, #0\n", // dies after about 24000 cycles
+		"mov bomb, 900+MINDISTANCE\njmp -1, <-1\nbomb dat #0, #0\n",                     // where the bomb lands depends on MINDISTANCE
+		"mov bomb, 1000-MAXLENGTH\nbomb dat #0, #0\n",
 	}
 	if d == asm.D94 {
 		w = append(w,
@@ -102,7 +105,7 @@ func runC17(c *Ctx) {
 				}
 				flagset += "+ignored" + ign[0]
 			}
-			cfg = asm.Config{Dialect: row.dialect, CoreSize: row.size, Length: row.length, Processes: row.processes, Distance: row.length}
+			cfg = asm.Config{Dialect: row.dialect, CoreSize: row.size, Length: row.length, Processes: row.processes, Distance: row.distance}
 			cycles = row.cycles
 			flagset = "preset:" + name + flagset
 		} else {
@@ -145,6 +148,9 @@ func runC17(c *Ctx) {
 		rounds := 1
 		if r.Chance(1, 2) {
 			rounds = r.Range(2, 7)
+			if cycles <= 100 && r.Chance(1, 6) {
+				rounds = r.Range(255, 300) // more rounds than fit in a byte
+			}
 			args = append(args, "-r", strconv.Itoa(rounds))
 			flagset += "-r"
 		}
@@ -179,7 +185,7 @@ func runC17(c *Ctx) {
 					}
 					continue
 				}
-				o := asm.GenOpts{Cfg: cfg, MaxLines: 1 + r.Intn(min(cfg.Length, 8)), UseLabels: true, UseEqus: r.Bool(), UseFor: r.Chance(1, 5), MaxForExp: 5}
+				o := asm.GenOpts{Cfg: cfg, MaxLines: 1 + r.Intn(min(cfg.Length, 8)), UseLabels: true, UseEqus: r.Bool(), UseFor: r.Chance(1, 5), MaxForExp: 5, UseConsts: r.Bool()}
 				p = asm.GenProg(r, o)
 				mn, err := p.Meaning()
 				if err != nil || len(mn.Code) == 0 || len(mn.Code) > cfg.Length {
@@ -214,7 +220,7 @@ func runC17(c *Ctx) {
 				flagset = "-s-c-r-F(pinned big core)"
 			} else {
 				row := readmePresets[pc[0]]
-				cfg = asm.Config{Dialect: row.dialect, CoreSize: row.size, Length: row.length, Processes: row.processes, Distance: row.length}
+				cfg = asm.Config{Dialect: row.dialect, CoreSize: row.size, Length: row.length, Processes: row.processes, Distance: row.distance}
 				cycles = row.cycles
 				fixed = row.size / 2
 				if pc[3] != "" {
@@ -421,6 +427,10 @@ var pinnedCLI = [][4]string{
 	// cores above 2^16: a product above 2^32 decides where the warrior jumps (70003*73334 = 2 mod 100000 -> the jmp 0 cell)
 	{"size:100000", "mul.x a, b\njmp @b\na dat #70003, #1\nb dat #1, #73334\ndat #0, #0\njmp 0\n", "jmp 0\n", "50000"},
 	{"size:100000", "jmp 0\n", "mul.ab #70003, b\njmp @b\ndat #0, #0\nb dat #0, #73334\ndat #0, #0\njmp 0\n", "70000"},
+	// MINDISTANCE as the warriors see it: the bomb lands on the opponent only with the hill's minimum distance
+	{"icws", "mov bomb, MINDISTANCE\njmp -1\nbomb dat #0, #0\n", "jmp 0\n", "100"},
+	{"noptiny", "mov bomb, MINDISTANCE\njmp -1\nbomb dat #0, #0\n", "jmp 0\n", "20"},
+	{"88", "jmp 0\n", "mov bomb, MAXLENGTH\njmp -1\nbomb dat #0, #0\n", "7900"},
 	// a dwarf on the 8192 core must not bomb itself (no read/write limits in the preset)
 	{"icws", "spl 0\njmp -1\n", "add #4, 3\nmov 2, @2\njmp -2\ndat #0, #0\n", "3740"},
 }
